@@ -375,9 +375,63 @@ def concurrent_senders(decisions, nthreads=2):
         w.close()
 
 
+def equal_hop_by_hop_on_two_connections(rec):
+    """Hop-by-hop identifiers are unique per connection only.  With every sequence generator starting at the same
+    value (an outcome of the real randomness, scripted here) two requests of one application that are outstanding
+    on two connections carry the same hop-by-hop identifier: each sender must still get exactly its own answer."""
+    from dv import simkernel as sk
+    from dv.common import fp
+    from diameter.message.commands import CreditControlRequest
+    for start in (7, 0xfffffff0, 0xffffffff):
+        for order in ((0, 1), (1, 0)):
+            case = {"equal_generator_starts": start, "answer_order": list(order)}
+            w = W.NodeWorld({"peers": [{"name": "peer1.example", "ip": ["10.1.1.1"], "realm": "r1.example"},
+                                       {"name": "peer2.example", "ip": ["10.1.1.2"], "realm": "r2.example"}],
+                             "apps": [{"app_id": 4, "auth": True, "peers": [0, 1], "handler": "answer"}],
+                             "node_timers": {"idle": 5000, "dwa": 50, "cer": 50, "cea": 50, "wakeup": 5},
+                             "rng": sk.EqualStartsRandom(start)})
+            try:
+                w.start()
+                cs = [w.handshake_in(f"peer{i + 1}.example", auth=[4], ip=f"10.1.1.{i + 1}", hbh=0x100 + i) for i in range(2)]
+                app = w.apps[0]
+                calls = []
+                for i, realm in enumerate(("r1.example", "r2.example")):
+                    m = CreditControlRequest()
+                    m.session_id, m.origin_host, m.origin_realm = f"n;{i}", W.NODE_HOST.encode(), W.NODE_REALM.encode()
+                    m.destination_realm, m.service_context_id = realm.encode(), "x"
+                    m.cc_request_type, m.cc_request_number = 1, i
+                    calls.append(w.app_call(lambda m=m: app.send_request(m, timeout=3), name=f"sender{i}"))
+                reqs = [[f for f in c.refresh() if f.is_request and f.code == 272] for c in cs]
+                if not all(len(r) == 1 for r in reqs):
+                    rec.violation("C10/equal-hop-by-hop/not-sent", case, f"requests on the wire: {[len(r) for r in reqs]}")
+                    continue
+                same = reqs[0][0].h["hbh"] == reqs[1][0].h["hbh"]
+                for i in order:
+                    f = reqs[i][0]
+                    w.feed_msg(cs[i], {"k": "ANS", "host": f"peer{i + 1}.example", "hbh": f.h["hbh"], "e2e": f.h["e2e"]})
+                w.advance(4)
+                for i, call in enumerate(calls):
+                    b = call["box"]
+                    want = reqs[i][0].h["e2e"]
+                    if not b["done"]:
+                        rec.violation("C10/equal-hop-by-hop/sender-blocked", case, f"sender {i}")
+                    elif b["exc"] is not None:
+                        rec.violation(f"C10/equal-hop-by-hop/sender-error/{type(b['exc']).__name__}", case,
+                                      f"sender {i}: {b['exc']!r} although its answer arrived (both requests carry hop-by-hop {reqs[i][0].h['hbh']:#x})")
+                    elif b["result"].header.end_to_end_identifier != want:
+                        rec.violation("C10/equal-hop-by-hop/wrong-answer", case,
+                                      f"sender {i} (end-to-end {want:#x}) got the answer {b['result'].header.end_to_end_identifier:#x}")
+                rec.case(fp("eqhbh", start, order) if same else None, ["equal-hop-by-hop-two-connections" if same else "hop-by-hop-differs"],
+                         sample=lambda: dict(case, hop_by_hop=hex(reqs[0][0].h["hbh"])))
+            finally:
+                w.close()
+
+
 def schedule_part(rec, shard, nshards, thorough):
     from dv import sched
     from dv.common import fp
+    if shard == 1 % nshards:
+        equal_hop_by_hop_on_two_connections(rec)
     info = install_points()
     if shard == 0:
         rec.extra["preemption_functions"] = info
@@ -419,7 +473,7 @@ def run(tier, scale=1.0):
     rec = Recorder(PID)
     for d in hyp.pool_run(shard_main, (tier, scale)):
         rec.merge(d)
-    required = {"schedule-exploration": 1, "senders:3": 1, "npeers:4": 1, "napps:3": 1, "select:first": 1, "select:None": 1, "state:waiting-dwa": 1,
+    required = {"equal-hop-by-hop-two-connections": 1, "schedule-exploration": 1, "senders:3": 1, "npeers:4": 1, "napps:3": 1, "select:first": 1, "select:None": 1, "state:waiting-dwa": 1,
                 "state:disconnecting": 1, "state:disconnecting-late-dwa": 1, "state:awaiting": 1, "state:closed": 1, "sends:4": 1}
     return finish(rec, tier=tier, level="exploration", rule=RULE, assumptions=ASSUME, t0=t0,
                   required_classes=required)
